@@ -30,10 +30,8 @@ class HelpResolver(DefaultResolver):
     def create_resolved_command(
         self, result
     ):  # type: (ResolveResult) -> ResolvedCommand
-        result.command.config.enable_lenient_args_parsing()
+        # Parse leniently for this resolution only, without touching
+        # the configuration of the command.
+        parsed_args = result.command.parse(result.raw_args, True)
 
-        resolved_command = super(HelpResolver, self).create_resolved_command(result)
-
-        result.command.config.disable_lenient_args_parsing()
-
-        return resolved_command
+        return ResolvedCommand(result.command, parsed_args)
